@@ -54,6 +54,9 @@ pub struct Case {
     /// 3 the same routine at the same point through the SAME closure object, whose captured
     ///   state makes it a different map for that one call
     pub prelude: u8,
+    /// fault: at the stencil point of this column the map returns one component too few (an
+    /// inconsistent map). There is no right matrix then: the call must refuse loudly.
+    pub short_return: Option<usize>,
     /// the user map itself calls the Jacobian routine (of another small map) during each
     /// evaluation — legal re-entrant use (a Hessian-like computation, a nested solve)
     pub reentrant: bool,
@@ -179,6 +182,12 @@ fn answer(case: &Case, x: &[f64], class: Class) -> Vec<f64> {
             Class::Off => vec![f64::NAN; base.len()],
         },
     };
+    if let (Some(j), Class::Col(c)) = (case.short_return, class) {
+        if j == c && case.m >= 2 {
+            let w = if case.cmplx { 2 } else { 1 };
+            out.truncate((case.m - 1) * w);
+        }
+    }
     for f in &case.faults {
         let here = match (f.at, class) {
             (At::Base, Class::Base) => true,
@@ -476,7 +485,7 @@ impl Prop for C18 {
     }
 
     fn generate(&self, rng: &mut Rng, tier: Tier, run: u64) -> Case {
-        let max_dim = if tier == Tier::Thorough && rng.chance(0.1) { 9 } else { 6 };
+        let max_dim = if rng.chance(if tier == Tier::Thorough { 0.1 } else { 0.03 }) { 12 } else { 6 };
         // the first 36*8 runs enumerate every shape with exact affine data, real and complex
         let grid = 36 * 8;
         let (m, n, cmplx, which, dyadic_forced) = if run < grid {
@@ -510,7 +519,8 @@ impl Prop for C18 {
         }
         let prelude = if dyadic_forced { 0 } else { match frng.below(20) { 0 | 1 => 1, 2..=4 => 2, 5..=7 => 3, _ => 0 } };
         let reentrant = !dyadic_forced && frng.chance(0.1);
-        Case { cmplx, m, n, point, delta, dyadic, kind, faults, panic_at, prelude, reentrant }
+        let short_return = if !dyadic_forced && m >= 2 && faults.is_empty() && panic_at.is_none() && frng.chance(0.04) { Some(frng.usize_below(n)) } else { None };
+        Case { cmplx, m, n, point, delta, dyadic, kind, faults, panic_at, prelude, reentrant, short_return }
     }
 
     fn execute(&self, case: &Case, stats: &mut Stats) -> Verdict {
@@ -584,6 +594,17 @@ impl Prop for C18 {
                 Ok(_) if out.hist.calls <= at => Ok(()), // the scripted call index was never reached (fewer evaluations): nothing to observe
                 Ok(_) => violation("callback-panic-swallowed", &format!("{fname}:panic-swallowed"), format!("{fname} m={m} n={n}: callback panicked at evaluation {at} but the call returned normally")),
             };
+        }
+
+        // ---- an inconsistent map (one component missing at one stencil point) must be refused loudly
+        if let Some(j) = case.short_return {
+            if m >= 2 && out.hist.classes.iter().any(|c| *c == Class::Col(j)) {
+                stats.count("fault.callback_returns_too_few_components");
+                return match &out.result {
+                    Err(_) => Ok(()),
+                    Ok(_) => violation("fault-masked", &format!("{fname}:short-return"), format!("{fname} m={m} n={n}: the map returned {} instead of {m} components at the stencil point of column {j}, yet the call returned a matrix", m - 1)),
+                };
+            }
         }
 
         // ---- no panic of its own
@@ -685,6 +706,11 @@ impl Prop for C18 {
             c.reentrant = false;
             out.push(c);
         }
+        if case.short_return.is_some() {
+            let mut c = case.clone();
+            c.short_return = None;
+            out.push(c);
+        }
         if case.panic_at.is_some() && !case.faults.is_empty() {
             let mut c = case.clone();
             c.faults.clear();
@@ -757,6 +783,7 @@ impl Prop for C18 {
             "history_before_call": match case.prelude { 3 => "same routine, same point, same closure object acting as a different map", 1 => "same routine, same point, different map", 2 => "Newton solve (finite-difference Jacobian) of x - point = 0 converging onto the point", _ => "none" },
             "prelude": case.prelude,
             "callback_calls_the_jacobian_routine_itself": case.reentrant,
+            "fault_one_component_missing_at_column": case.short_return,
         })
     }
 
@@ -783,6 +810,7 @@ impl Prop for C18 {
             panic_at: v["callback_panics_at_evaluation"].as_u64().map(|x| x as usize),
             prelude: v["prelude"].as_u64().unwrap_or(0) as u8,
             reentrant: v["callback_calls_the_jacobian_routine_itself"].as_bool().unwrap_or(false),
+            short_return: v["fault_one_component_missing_at_column"].as_u64().map(|x| x as usize),
         }
     }
 
@@ -796,7 +824,7 @@ impl Prop for C18 {
             ],
             real_components: vec!["ohsl::Mat64::jacobian".into(), "ohsl::Matrix::<Cmplx>::jacobian_cmplx".into(), "ohsl::Matrix::set_col / new / indexing, Vector arithmetic".into()],
             stub_components: vec!["the user map f: scripted, recording (this is the simulated peer, not a stub of ohsl code)".into()],
-            fault_kinds: vec!["callback_nan_at_base", "callback_inf_at_base", "callback_nan_at_column", "callback_inf_at_column", "callback_panic"],
+            fault_kinds: vec!["callback_nan_at_base", "callback_inf_at_base", "callback_nan_at_column", "callback_inf_at_column", "callback_panic", "callback_returns_too_few_components"],
             step_meaning: "ohsl has no clock; simulated_steps counts callback invocations (one protocol message each)".into(),
         }
     }
@@ -884,6 +912,9 @@ fn drop_col(case: &Case, j: usize, w: usize) -> Option<Case> {
     }).collect();
     if let Some(p) = c.panic_at {
         c.panic_at = Some(p.min(c.n));
+    }
+    if let Some(sj) = c.short_return {
+        c.short_return = if sj == j { None } else if sj > j { Some(sj - 1) } else { Some(sj) };
     }
     Some(c)
 }
